@@ -47,7 +47,14 @@ func (p *sortProcessor) Process(inputIQR *iqr.IQR) (*iqr.IQR, error) {
 	}
 
 	p.validate()
-	err := inputIQR.Sort(p.getSortColumns(), p.less, int(p.options.Limit))
+
+	// "sort 0" means no limit and arrives as MaxUint64, which must not wrap to a negative int.
+	limit := math.MaxInt
+	if p.options.Limit < math.MaxInt {
+		limit = int(p.options.Limit)
+	}
+
+	err := inputIQR.Sort(p.getSortColumns(), p.less, limit)
 	if err != nil {
 		log.Errorf("sort.Process: cannot sort IQR; err=%v", err)
 		return nil, err
